@@ -331,6 +331,7 @@ func runC15(c *eng.Ctx) {
 	RunBuildCleanupFails(c, cr.next)
 	RunOddResultLists(c, cr.next)
 	RunBuildTimeLimit(c, cr.next)
+	RunPartialOutputs(c, "C15", cr.next)
 	nSpecs := c.Pick(300, 6000)
 	for k := 0; k < nSpecs; k++ {
 		idx, mine := cr.next()
